@@ -1,6 +1,7 @@
 package bworld
 
 import (
+	"encoding/json"
 	"fmt"
 	"log/slog"
 	"strings"
@@ -53,6 +54,9 @@ func (m *model) admit(w *World, h *half) {
 		h.mReason = "already"
 	case "" != m.key && m.key != mkey(h):
 		h.mReason = "wrongkey"
+		if "io" == h.a.kind && strings.HasPrefix(m.key, "\x00io-request-") {
+			h.mReason = "otherio" /* A side of another /io request. */
+		}
 	default:
 		h.mAccept = true
 		*us = h
@@ -155,7 +159,7 @@ func (w *World) observe(st *Step, pre map[*half]halfSnap) {
 
 	/* ---- Disturbance bookkeeping for C03. ---- */
 	switch e.Op {
-	case "cancel":
+	case "cancel", "linecancel":
 		if a := w.attempts[e.A]; nil != a.r {
 			w.c03For(a).disturbed = true
 		}
@@ -442,8 +446,8 @@ func (w *World) observe(st *Step, pre map[*half]halfSnap) {
 	w.checkOutput(st, hist)
 
 	/* ---- C11: the log. ---- */
-	if p.has("C11") && roomy && !mid {
-		w.checkLog(st, pre, hist)
+	if p.has("C11") && (roomy || 0 == p.OchCap) {
+		w.checkLog(st, pre, hist, roomy && !mid)
 	}
 }
 
@@ -457,9 +461,12 @@ type entry struct {
 
 // parseWriter splits a writer's op log into entries and reports protocol
 // errors (C02's per-writer clauses).
-func parseWriter(a *attempt) (ents []entry, code, problem string) {
+func parseWriter(a *attempt, entered []string) (ents []entry, code, problem string) {
 	ops := a.w.snapshot()
 	kind := a.w.kind
+	if 0 == kind {
+		return parsePlainWriter(a, ops, entered)
+	}
 	wantFlush := ""
 	switch kind {
 	case 1:
@@ -518,6 +525,56 @@ func parseWriter(a *attempt) (ents []entry, code, problem string) {
 	return ents, "", ""
 }
 
+// parsePlainWriter handles a writer without any flush method: only the byte
+// sequence is defined, so the stream is matched greedily against the entered
+// lines (each followed by one newline).
+func parsePlainWriter(a *attempt, ops []wop, entered []string) (ents []entry, code, problem string) {
+	var stream strings.Builder
+	var failed *wop
+	for i := range ops {
+		op := ops[i]
+		if "W" != op.Op {
+			return nil, "flush-on-plain-writer", fmt.Sprintf("op %d: %s on a writer without flush methods: %v", i, op.Op, ops)
+		}
+		if op.Err {
+			failed = &ops[i]
+			if i != len(ops)-1 {
+				return nil, "use-after-write-error", fmt.Sprintf("op %d: writer used after its write failed: %v", i, ops)
+			}
+			continue
+		}
+		stream.WriteString(op.Data)
+	}
+	rest := stream.String()
+	start := -1
+	for i, l := range entered {
+		if strings.HasPrefix(rest, l+"\n") {
+			start = i
+			break
+		}
+	}
+	next := start
+	for "" != rest {
+		if next < 0 || next >= len(entered) || !strings.HasPrefix(rest, entered[next]+"\n") {
+			return ents, "plain-writer-bytes", fmt.Sprintf("byte stream %q is not a run of entered lines each followed by one newline (stuck at %q)", trunc(stream.String()), trunc(rest))
+		}
+		ents = append(ents, entry{line: entered[next], ok: true, a: a})
+		rest = rest[len(entered[next])+1:]
+		next++
+	}
+	if nil != failed {
+		ents = append(ents, entry{line: strings.TrimSuffix(failed.Data, "\n"), ok: false, a: a})
+	}
+	return ents, "", ""
+}
+
+func trunc(s string) string {
+	if len(s) > 120 {
+		return s[:120] + "..."
+	}
+	return s
+}
+
 // checkInput checks C02 (and the input side of C01/C11): entries arrive
 // whole, flushed, in order, exactly once, and none is lost.
 func (w *World) checkInput(st *Step, hist func() string) {
@@ -536,7 +593,7 @@ func (w *World) checkInput(st *Step, hist func() string) {
 		if nil == a.w {
 			continue
 		}
-		ents, code, problem := parseWriter(a)
+		ents, code, problem := parseWriter(a, w.entered)
 		if "" != code {
 			w.viol("C02", "writer-protocol/"+code, fmt.Sprintf("writer of a%d: %s%s", a.id, problem, hist()))
 		}
@@ -664,7 +721,7 @@ func (w *World) checkOutput(st *Step, hist func() string) {
 }
 
 // checkLog checks C11 on the records of this step.
-func (w *World) checkLog(st *Step, pre map[*half]halfSnap, hist func() string) {
+func (w *World) checkLog(st *Step, pre map[*half]halfSnap, hist func() string, conns bool) {
 	var inRecs, outRecs []LogRec
 	for _, r := range st.Logs {
 		if iobroker.LMShellIO == r.Msg {
@@ -718,6 +775,41 @@ func (w *World) checkLog(st *Step, pre map[*half]halfSnap, hist func() string) {
 			}
 		}
 	}
+	/* The real JSON handler's view of the same records. */
+	if w.P.JSONLog {
+		js := w.lh.takeJSON()
+		var lines []string
+		if "" != js {
+			lines = strings.Split(strings.TrimSuffix(js, "\n"), "\n")
+		}
+		if len(lines) != len(st.Logs) {
+			w.viol("C11", "json-line-count", fmt.Sprintf("%d records produced %d lines of JSON log: %q%s", len(st.Logs), len(lines), js, hist()))
+		} else {
+			for i, l := range lines {
+				var obj map[string]any
+				if err := json.Unmarshal([]byte(l), &obj); nil != err {
+					w.viol("C11", "json-unparsable", fmt.Sprintf("log line %q is not one JSON object: %v%s", l, err, hist()))
+					continue
+				}
+				if obj["msg"] != st.Logs[i].Msg {
+					w.viol("C11", "json-msg", fmt.Sprintf("log line %q has msg %v, record has %q%s", l, obj["msg"], st.Logs[i].Msg, hist()))
+				}
+				if d, ok := st.Logs[i].Attrs[iobroker.LKData]; ok {
+					/* What JSON can represent of d. */
+					enc, _ := json.Marshal(d)
+					var want string
+					json.Unmarshal(enc, &want)
+					if got, _ := obj[iobroker.LKData].(string); got != want {
+						w.viol("C11", "json-data", fmt.Sprintf("log line carries data %q for %q%s", got, d, hist()))
+					}
+				}
+			}
+		}
+	}
+
+	if !conns {
+		return
+	}
 	/* Connection records. */
 	count := func(msg string, a *attempt, dir string, lvl slog.Level) int {
 		n := 0
@@ -746,7 +838,14 @@ func (w *World) checkLog(st *Step, pre map[*half]halfSnap, hist func() string) {
 			if "missing" == h.mReason {
 				dir = "" /* Logged before the direction is attached to the logger. */
 			}
-			if n := count(wantMsg, h.a, dir, slog.LevelError); 1 != n {
+			n := count(wantMsg, h.a, dir, slog.LevelError)
+			if "otherio" == h.mReason {
+				/* The statement asks for a record naming the reason;
+				either wording fits this case. */
+				n = count(iobroker.LMAlreadyConnected, h.a, dir, slog.LevelError) +
+					count(iobroker.LMIncorrectKey, h.a, dir, slog.LevelError)
+			}
+			if 1 != n {
 				w.viol("C11", "refusal-record/"+h.mReason, fmt.Sprintf(
 					"%d error records %q for the refused %s of a%d; records of this step: %v%s", n, wantMsg, h.dir, h.a.id, st.Logs, hist()))
 			}
